@@ -3,6 +3,7 @@ import CuqiVerif.Model.QMat
 import CuqiVerif.Model.RExpr
 import CuqiVerif.Model.C20
 import CuqiVerif.Model.C05
+import CuqiVerif.Model.C05_mhn
 open CuqiVerif CuqiVerif.Proto CuqiVerif.QMat CuqiVerif.C05
 
 def parseBool (s : String) : Option Bool :=
@@ -95,6 +96,10 @@ def step : List String → String
       else fmtMat ((List.zip acols bcols).map (fun ab => gmrfPeriodicSample mean c Fre Fim s ab.1 ab.2))
     | _, _, _, _, _, _, _ => "bad-op"
   -- exact model precision / operator of GMRF (from the C20 model), for the oracle's bookkeeping
+  | ["gmrfD", order, bc, n, pd] =>
+    match order.toNat?, C20.BC.ofString bc, n.toNat?, pd.toNat? with
+    | some order, some bc, some n, some pd => fmtMat (if pd = 2 then gmrfD2 order bc n else gmrfD order bc n)
+    | _, _, _, _ => "bad-op"
   | ["gmrfP", order, bc, n, pd] =>
     match order.toNat?, C20.BC.ofString bc, n.toNat?, pd.toNat? with
     | some order, some bc, some n, some pd => fmtMat (if pd = 2 then gmrfP2 order bc n else gmrfP order bc n)
@@ -182,7 +187,132 @@ def step2 : List String → Option String
     | _, _, _, _, _ => some "bad-op"
   | _ => none
 
+/-! ### ModifiedHalfNormal: the whole sampler on a scripted stream (`Model/C05_mhn.lean`) -/
+open CuqiVerif.C05.MhnRun in
+def parsePVal (s : String) : Option PVal :=
+  match s.splitOn ":" with
+  | ["f", v] => PVal.pyfloat <$> parseRat v
+  | ["n", v] => PVal.npscalar <$> parseRat v
+  | ["s", v] => PVal.seq <$> parseVec v
+  | _ => none
+
+open CuqiVerif.C05.MhnRun in
+def parseMArg (s : String) : Option MArg :=
+  match s.splitOn ":" with
+  | ["none"] => some .none
+  | ["mode"] => some .mode
+  | ["num", v] => MArg.num <$> parseRat v
+  | _ => none
+
+def parseStream (s : String) : Option (List (Rat × Rat)) :=
+  match parseMat s with
+  | some rows => rows.mapM (fun r => match r with | [t, u] => some (t, u) | _ => none)
+  | none => none
+
+open CuqiVerif.C05.MhnRun in
+def fmtLoopCall (L : Loop) : String := L.method ++ ":" ++ ev L.arg1 ++ ":" ++ ev L.arg2
+
+open CuqiVerif.C05.MhnRun in
+def fmtRun (total : Nat) (calls : List String) : Except Err (List RExpr × List (Rat × Rat)) → String
+  | .error e => "err:" ++ e.toString
+  | .ok (xs, rest) => "ok " ++ (if xs.isEmpty then "_" else ",".intercalate (xs.map ev)) ++ s!" {total - rest.length} "
+      ++ (if calls.isEmpty then "_" else ",".intercalate calls)
+
+open CuqiVerif.C05.MhnRun in
+def one (r : Except Err (RExpr × List (Rat × Rat))) : Except Err (List RExpr × List (Rat × Rat)) :=
+  match r with | .error e => .error e | .ok (x, rest) => .ok ([x], rest)
+
+open CuqiVerif.C05.MhnRun in
+def loopCall (r : Except Err Loop) : List String :=
+  match r with | .ok L => [fmtLoopCall L] | .error _ => []
+
+open CuqiVerif.C05.MhnRun in
+def runLoopE (r : Except Err Loop) (s : List (Rat × Rat)) : Except Err (List RExpr × List (Rat × Rat)) :=
+  match r with | .error e => .error e | .ok L => one (L.run floatArith s)
+
+open CuqiVerif.C05.MhnRun in
+def step3 : List String → Option String
+  -- public path: `ModifiedHalfNormal(a, b, c)._sample(N, rng)`
+  | ["mhnrun", "sample", a, b, c, N, st] =>
+    match parsePVal a, parsePVal b, parsePVal c, N.toNat?, parseStream st with
+    | some a, some b, some c, some N, some st =>
+      let calls := (List.range N).filterMap (fun i =>
+        match paramsAt a b c i with
+        | .ok (x, y, z) => (loopCall (mhnDispatch floatArith (cq x) (cq y) (cq z) .none)).head?
+        | .error _ => none)
+      some (fmtRun st.length calls (sampleN floatArith a b c N st))
+    | _, _, _, _, _ => some "bad-op"
+  | ["mhnrun", "private", a, b, c, m, st] =>
+    match parseRat a, parseRat b, parseRat c, parseMArg m, parseStream st with
+    | some a, some b, some c, some m, some st =>
+      let d := mhnDispatch floatArith (cq a) (cq b) (cq c) m
+      some (fmtRun st.length (loopCall d) (runLoopE d st))
+    | _, _, _, _, _ => some "bad-op"
+  | ["mhnrun", "pg1", a, b, c, st] =>
+    match parseRat a, parseRat b, parseRat c, parseStream st with
+    | some a, some b, some c, some st =>
+      let d := positiveGamma1 floatArith (cq a) (cq b) (cq c)
+      some (fmtRun st.length (loopCall d) (runLoopE d st))
+    | _, _, _, _ => some "bad-op"
+  | ["mhnrun", "ng", a, b, c, m, st] =>
+    match parseRat a, parseRat b, parseRat c, parseMArg m, parseStream st with
+    | some a, some b, some c, some m, some st =>
+      let d := negativeGamma floatArith (cq a) (cq b) (cq c) m
+      some (fmtRun st.length (loopCall d) (runLoopE d st))
+    | _, _, _, _, _ => some "bad-op"
+  | ["mhnrun", "gp", a, b, c, st] =>
+    match parseRat a, parseRat b, parseRat c, parseStream st with
+    | some a, some b, some c, some st =>
+      let d : Except Err Loop := .ok (gammaProposalLoop (cq a) (cq b) (cq c))
+      some (fmtRun st.length (loopCall d) (runLoopE d st))
+    | _, _, _, _ => some "bad-op"
+  | ["mhnrun", "np", a, b, c, st] =>
+    match parseRat a, parseRat b, parseRat c, parseStream st with
+    | some a, some b, some c, some st =>
+      let d : Except Err Loop := .ok (normalProposalLoop (cq a) (cq b) (cq c))
+      some (fmtRun st.length (loopCall d) (runLoopE d st))
+    | _, _, _, _ => some "bad-op"
+  | _ => none
+
+open CuqiVerif.C05.MhnRun in
+/-- point and log-acceptance bound of the selected loop at the proposal draws `ts` (used by the harness to place the
+    uniforms well away from the decision threshold) -/
+def fmtProbe (d : Except Err Loop) (ts : List Rat) : String :=
+  match d with
+  | .error e => "err:" ++ e.toString
+  | .ok L => fmtLoopCall L ++ (if L.guardPos then " g " else " n ") ++
+      (if ts.isEmpty then "_" else ",".intercalate (ts.map (fun t => ev (L.point (cq t)) ++ "|" ++ ev (L.bound (cq t)))))
+
+open CuqiVerif.C05.MhnRun in
+def step4 : List String → Option String
+  | ["mhnprobe", "sample", a, b, c, i, ts] =>
+    match parsePVal a, parsePVal b, parsePVal c, i.toNat?, parseVec ts with
+    | some a, some b, some c, some i, some ts =>
+      match paramsAt a b c i with
+      | .error e => some ("err:" ++ e.toString)
+      | .ok (x, y, z) => some (fmtProbe (mhnDispatch floatArith (cq x) (cq y) (cq z) .none) ts)
+    | _, _, _, _, _ => some "bad-op"
+  | ["mhnprobe", entry, a, b, c, m, ts] =>
+    match parseRat a, parseRat b, parseRat c, parseMArg m, parseVec ts with
+    | some a, some b, some c, some m, some ts =>
+      let (α, β, γ) := (cq a, cq b, cq c)
+      match entry with
+      | "private" => some (fmtProbe (mhnDispatch floatArith α β γ m) ts)
+      | "pg1" => some (fmtProbe (positiveGamma1 floatArith α β γ) ts)
+      | "ng" => some (fmtProbe (negativeGamma floatArith α β γ m) ts)
+      | "gp" => some (fmtProbe (.ok (gammaProposalLoop α β γ)) ts)
+      | "np" => some (fmtProbe (.ok (normalProposalLoop α β γ)) ts)
+      | _ => some "bad-op"
+    | _, _, _, _, _ => some "bad-op"
+  | _ => none
+
 def stepAll (toks : List String) : String :=
+  match step3 toks with
+  | some r => r
+  | none =>
+  match step4 toks with
+  | some r => r
+  | none =>
   match step2 toks with
   | some r => r
   | none => step toks
